@@ -1,6 +1,7 @@
 (** Correspondence glue for C07: one case is an initial parameter tree and a sequence of
-    operations (reads by every route, replacements of the tree) run on one system; the
-    observation is the list of answers.  Depends on model files only. *)
+    operations (reads by every route, replacements of the tree, new reforms), each on one
+    of the systems of a world that starts with one baseline; the observation is the list
+    of answers.  Depends on model files only. *)
 From Coq Require Import ZArith List Bool String.
 From Verif Require Import Base Obs Cal Param ParamCache.
 Import ListNotations.
@@ -8,7 +9,7 @@ Open Scope Z_scope.
 Open Scope string_scope.
 
 Inductive case :=
-  | KSeq (t0 : tree) (ops : list op).
+  | KSeq (t0 : tree) (ops : list (nat * op)).
 
 (** history of a leaf of a generated tree (only loadable entries are generated) *)
 Definition yparam (entries : list (Z * yentry Z)) : hist Z :=
@@ -54,5 +55,5 @@ Definition oans (a : ans) : obs :=
 
 Definition run (c : case) : obs :=
   match c with
-  | KSeq t0 ops => OL (map oans (ParamCache.run Fixed (init t0) ops))
+  | KSeq t0 ops => OL (map oans (wrun Fixed (init t0) ops))
   end.
